@@ -341,30 +341,16 @@ Theorem unpack_value : forall d A x s o,
 Proof. intros d A x s o H1 H2. unfold spec_elem. simpl. now rewrite H1, H2. Qed.
 
 (* ------------------------------------------------------------------ apply_masking reproduces the masked read *)
-Lemma fv_match_safe : forall d fv x, safe_val d fv = true ->
-  fv_match d fv x = spec_is (cast d fv) x.
+Lemma fv_match_cast : forall d m x, fv_match d (cast d m) x = spec_is (cast d m) x.
 Proof.
-  intros d fv x S. rewrite (cast_safe d fv S). unfold fv_match, spec_is.
-  destruct fv as [z|]; simpl; [reflexivity|]. simpl in S. now rewrite S.
+  intros d m x. unfold fv_match, spec_is. destruct m as [z|]; simpl; [reflexivity|].
+  destruct (is_float d); reflexivity.
 Qed.
 
-Lemma existsb_fv_match : forall d vs x, forallb (safe_val d) vs = true ->
-  existsb (fun fv => fv_match d fv x) vs = existsb (fun m => spec_is (cast d m) x) vs.
+Lemma existsb_fv_match_cast : forall d vs x,
+  existsb (fun fv => fv_match d fv x) (map (cast d) vs) = existsb (fun m => spec_is (cast d m) x) vs.
 Proof.
-  induction vs as [|v r IH]; intros x H; simpl; [reflexivity|].
-  simpl in H. apply andb_true_iff in H as [H1 H2]. now rewrite fv_match_safe, IH.
-Qed.
-
-Lemma ltb_cast_safe_r : forall d m x, safe_val d m = true -> num_ltb x (cast d m) = num_ltb x m.
-Proof. intros. now rewrite cast_safe. Qed.
-
-Lemma ltb_cast_safe_l : forall d m x, safe_val d m = true -> num_ltb (cast d m) x = num_ltb m x.
-Proof. intros. now rewrite cast_safe. Qed.
-
-Lemma map_option_id : forall (vals : list (option num)) (f : num -> num),
-  (forall x, f x = x) -> map (option_map f) vals = vals.
-Proof.
-  intros vals f H. rewrite <- (map_id vals) at 2. apply map_ext. intros [x|]; simpl; [now rewrite H|reflexivity].
+  induction vs as [|v r IH]; intro x; simpl; [reflexivity|]. now rewrite fv_match_cast, IH.
 Qed.
 
 (* under the guard the masked read and the unmasked read are in "raw space" *)
@@ -381,89 +367,101 @@ Proof.
   - unfold do_view. simpl. reflexivity.
 Qed.
 
+(* the mask that apply_masking computes on an array of the variable's own type, with the
+   variable's own default fill value recorded, is the specification's *)
+Lemma apply_masking_on_spec : forall d A vals,
+  fill_ok d A = true ->
+  apply_masking_on d A d vals =
+  Ok (d, map (fun v => match v with
+                       | Some x => if spec_masked d A false x then None else Some x
+                       | None => None end) vals).
+Proof.
+  intros d A vals FO. unfold apply_masking_on. rewrite valid_bounds_spec.
+  assert (FILL : check_safecast d (Some (fill_property d A)) = (true, [spec_fill d A])).
+  { unfold fill_property, fill_ok, spec_fill, usable in *.
+    destruct (a_fill A) as [[t [|v [|w r]]|s]|]; try discriminate; unfold check_safecast; cbn [forallb].
+    - rewrite FO. reflexivity.
+    - rewrite default_fill_safe. reflexivity. }
+  rewrite FILL.
+  assert (MISS : forall x,
+     existsb (fun fv => fv_match d fv x)
+             (let (smiss, mvs) := check_safecast d (a_missing A) in
+              if smiss then map (cast d) mvs else [])
+     = match usable d (a_missing A) with
+       | Some vs => existsb (fun m => spec_is (cast d m) x) vs | None => false end).
+  { intro x. unfold check_safecast, usable.
+    destruct (a_missing A) as [[t vs|s]|]; try reflexivity.
+    destruct (forallb (safe_val d) vs); [apply existsb_fv_match_cast|reflexivity]. }
+  destruct (check_safecast d (a_missing A)) as [smiss mvs].
+  f_equal. f_equal. apply map_ext. intros [x|]; [|reflexivity].
+  assert (E : (existsb (fun fv => fv_match d fv x)
+                 (map (cast d) [spec_fill d A] ++ (if smiss then map (cast d) mvs else []))
+               || match option_map (cast d) (spec_vmin d A) with Some m => num_ltb x m | None => false end
+               || match option_map (cast d) (spec_vmax d A) with Some m => num_ltb m x | None => false end)
+              = spec_masked d A false x).
+  { unfold spec_masked. cbn [vw]. rewrite existsb_app, (MISS x). cbn [map existsb].
+    rewrite orb_false_r, fv_match_cast.
+    rewrite (orb_comm (spec_is (cast d (spec_fill d A)) x)).
+    destruct (spec_vmin d A), (spec_vmax d A); reflexivity. }
+  cbn [map] in E. cbn [map]. rewrite E. reflexivity.
+Qed.
+
 Theorem apply_masking_reproduces : forall d A unpack raw,
   apply_guard d A unpack = true ->
   apply_masking_model d A unpack raw = Ok (read_model d A true unpack raw).
 Proof.
-  intros d A unpack raw G. unfold apply_guard in G.
-  repeat (apply andb_true_iff in G; destruct G as [G ?]).
-  rename G into NP.
-  unfold apply_masking_model. rewrite !(not_packed_read d A _ unpack raw NP). simpl.
-  unfold apply_masking_on, fill_property.
-  (* fill *)
-  assert (FILL : exists fv, attr_values (Some match a_fill A with Some a => a | None => ANum d [Fin (default_fill d)] end) = Some [fv]
-                 /\ safe_val d fv = true /\ spec_fill d A = fv).
-  { unfold spec_fill. destruct (a_fill A) as [[t [|v [|w r]]|s]|] eqn:EF; simpl in *; try discriminate.
-    - destruct (safe_val d v) eqn:S; simpl in *; [|discriminate]. exists v.
-      split; [reflexivity|split; [exact S|]]. try rewrite S. reflexivity.
-    - exists (Fin (default_fill d)). split; [reflexivity|split; [apply default_fill_safe|reflexivity]]. }
-  destruct FILL as [fv [EF [SF SPF]]]. rewrite EF.
-  (* missing *)
-  assert (MISS : exists mvs, attr_values (a_missing A) = Some mvs /\ forallb (safe_val d) mvs = true /\
-                 (forall x, match usable d (a_missing A) with
-                            | Some vs => existsb (fun m => spec_is (cast d m) x) vs | None => false end
-                            = existsb (fun m => spec_is (cast d m) x) mvs)).
-  { destruct (a_missing A) as [[t vs|s]|] eqn:EM; simpl in *; try discriminate.
-    - destruct (forallb (safe_val d) vs) eqn:S; [|discriminate]. exists vs.
-      split; [reflexivity|split; [exact S|intro x; reflexivity]].
-    - exists []. split; [reflexivity|split; [reflexivity|intro x; reflexivity]]. }
-  destruct MISS as [mvs [EM [SM SPM]]]. rewrite EM.
-  (* valid_min, valid_max, valid_range *)
-  assert (VMIN : exists l, attr_values (a_vmin A) = Some l) by
-    (destruct (a_vmin A) as [[t l|s]|]; simpl in *; try discriminate; eexists; reflexivity).
-  assert (VMAX : exists l, attr_values (a_vmax A) = Some l) by
-    (destruct (a_vmax A) as [[t l|s]|]; simpl in *; try discriminate; eexists; reflexivity).
-  assert (VR : exists l, attr_values (a_vrange A) = Some l) by
-    (destruct (a_vrange A) as [[t l|s]|]; simpl in *; try discriminate; eexists; reflexivity).
-  destruct VMIN as [lmin Emin], VMAX as [lmax Emax], VR as [lr Er]. rewrite Emin, Emax, Er.
-  match goal with H : negb (present (a_vrange A) && _) = true |- _ =>
-    apply negb_true_iff in H; rename H into EXCL end.
-  fold (present (a_vrange A)) (present (a_vmin A)) (present (a_vmax A)).
-  rewrite EXCL. simpl.
-  assert (LEN : (present (a_vrange A) && negb (length lr =? 2)%nat) = false).
-  { destruct (a_vrange A) as [[t [|a [|b [|c r]]]|s]|]; simpl in *; try discriminate;
-      injection Er as <-; reflexivity. }
-  rewrite LEN. f_equal. f_equal. rewrite map_map. apply map_ext. intro x. simpl.
-  assert (E : (existsb (fun fv0 => fv_match d fv0 x) ([fv] ++ mvs)
-             || match (if present (a_vrange A) then Some (nth 0 lr NaN)
-                       else if present (a_vmin A) then Some (head_or lmin NaN) else None) with
-                | Some m => num_ltb x m | None => false end
-             || match (if present (a_vrange A) then Some (nth 1 lr NaN)
-                       else if present (a_vmax A) then Some (head_or lmax NaN) else None) with
-                | Some m => num_ltb m x | None => false end)
-            = spec_masked d A false x).
-  { unfold spec_masked. simpl vw. rewrite SPM, SPF.
-    rewrite existsb_app. simpl. rewrite orb_false_r.
-    rewrite (fv_match_safe d fv x SF), (existsb_fv_match d mvs x SM).
-    rewrite (orb_comm (spec_is (cast d fv) x)).
-    f_equal; [f_equal|].
-    - (* valid minimum *)
-      unfold spec_vmin, usable.
-      destruct (a_vrange A) as [[t [|a [|b [|c r]]]|s]|]; simpl in *; try discriminate.
-      + injection Er as <-. simpl.
-        destruct (safe_val d a) eqn:Sa; simpl in *; [|discriminate].
-        destruct (safe_val d b) eqn:Sb; simpl in *; [|discriminate].
-        now rewrite ltb_cast_safe_r.
-      + destruct (a_vmin A) as [[t [|v [|w r]]|s]|]; simpl in *; try discriminate; [|reflexivity].
-        injection Emin as <-. simpl.
-        destruct (safe_val d v) eqn:Sv; simpl in *; [|discriminate]. now rewrite ltb_cast_safe_r.
-    - (* valid maximum *)
-      unfold spec_vmax, usable.
-      destruct (a_vrange A) as [[t [|a [|b [|c r]]]|s]|]; simpl in *; try discriminate.
-      + injection Er as <-. simpl.
-        destruct (safe_val d a) eqn:Sa; simpl in *; [|discriminate].
-        destruct (safe_val d b) eqn:Sb; simpl in *; [|discriminate].
-        now rewrite ltb_cast_safe_l.
-      + destruct (a_vmax A) as [[t [|v [|w r]]|s]|]; simpl in *; try discriminate; [|reflexivity].
-        injection Emax as <-. simpl.
-        destruct (safe_val d v) eqn:Sv; simpl in *; [|discriminate]. now rewrite ltb_cast_safe_l. }
-  cbn [existsb app] in E. rewrite orb_false_r in E || idtac. rewrite E. reflexivity.
+  intros d A unpack raw G. unfold apply_guard in G. apply andb_true_iff in G as [NP FO].
+  unfold apply_masking_model, apply_masking_recorded.
+  rewrite !(not_packed_read d A _ unpack raw NP). cbn [andb].
+  rewrite (apply_masking_on_spec d A _ FO). f_equal. f_equal. rewrite map_map. reflexivity.
 Qed.
 
-(* non-vacuity: a guard-satisfying variable with every masking attribute kind *)
+(* bounds and other children: as long as nothing is inherited from the parent *)
+Lemma inherit_covers {T} (own parent : option T) : covers own parent = true -> inherit own parent = own.
+Proof. destruct own, parent; simpl; intro H; try reflexivity; discriminate. Qed.
+
+Lemma bounds_attrs_no_inherit : forall Ab Ap, no_inherit Ab Ap = true -> bounds_attrs Ab Ap = Ab.
+Proof.
+  intros [m f vr vmn vmx s o u] Ap H. unfold no_inherit in H. cbn [a_missing a_vrange a_vmin a_vmax] in H.
+  repeat (apply andb_true_iff in H; destruct H as [H ?]).
+  unfold bounds_attrs. cbn [a_missing a_fill a_vrange a_vmin a_vmax a_scale a_offset a_unsigned].
+  rewrite !inherit_covers by assumption. reflexivity.
+Qed.
+
+Theorem apply_masking_bounds_reproduces : forall db Ab Ap unpack raw,
+  apply_guard db Ab unpack = true -> no_inherit Ab Ap = true ->
+  apply_masking_bounds db db Ab Ap unpack raw = Ok (read_model db Ab true unpack raw).
+Proof.
+  intros db Ab Ap unpack raw G N. unfold apply_masking_bounds.
+  rewrite (bounds_attrs_no_inherit Ab Ap N). exact (apply_masking_reproduces db Ab unpack raw G).
+Qed.
+
+(* the whole field: own data, every metadata construct, their bounds and interior rings *)
+Definition fvar_guard (unpack : bool) (v : fvar) : bool :=
+  match v with
+  | Own d A _ => apply_guard d A unpack
+  | Child db Ab Ap _ => apply_guard db Ab unpack && no_inherit Ab Ap
+  end.
+
+Theorem field_apply_masking_reproduces : forall unpack f,
+  forallb (fvar_guard unpack) f = true ->
+  field_apply_masking unpack f = map (@Ok _) (field_read true unpack f).
+Proof.
+  intros unpack f. unfold field_apply_masking, field_read.
+  induction f as [|v r IH]; intro H; [reflexivity|].
+  cbn [forallb] in H. apply andb_true_iff in H as [Hv Hr].
+  cbn [map]. rewrite (IH Hr). f_equal.
+  destruct v as [d A raw|db Ab Ap raw]; cbn [fvar_apply fvar_read fvar_guard] in *.
+  - now apply apply_masking_reproduces.
+  - apply andb_true_iff in Hv as [G N]. now apply apply_masking_bounds_reproduces.
+Qed.
+
+(* non-vacuity: guard-satisfying variables with every masking attribute kind, including an
+   attribute that cannot be cast safely (valid_max = 70000 on an i2 variable), valid_range
+   together with valid_min, a vector and a NaN missing_value *)
 Example apply_guard_example :
   let A := mkAttrs (Some (ANum I4 [Fin 2; Fin 4])) (Some (ANum I2 [Fin 3])) (Some (ANum F8 [Fin 0; Fin 100]))
-                   None None (Some (ANum F4 [Fin 2])) None (Some "true"%string) in
+                   (Some (ANum I2 [Fin 50])) (Some (ANum I4 [Fin 70000])) (Some (ANum F4 [Fin 2])) None (Some "true"%string) in
   apply_guard I2 A false = true /\
   apply_masking_model I2 A false [Fin 1; Fin 2; Fin 3; Fin (-5); Fin (-32767); Fin 101]
   = Ok (I2, [Some (Fin 1); None; None; None; None; None]).
@@ -475,29 +473,49 @@ Example apply_guard_example_nan :
   apply_masking_model F8 A true [Fin 1; NaN; Fin (-1)] = Ok (F8, [Some (Fin 1); None; None]).
 Proof. vm_compute. split; reflexivity. Qed.
 
+(* an i4 coordinate whose f8 bounds have a never-written (pre-filled) last cell *)
+Example field_example :
+  let none := mkAttrs None None None None None None None None in
+  let f := [Own I4 none [Fin 1; Fin 2]; Child F8 none none [Fin 0; Fin 1; Fin (default_fill F8); Fin (default_fill F8)]] in
+  forallb (fvar_guard true) f = true /\
+  field_apply_masking true f
+  = [Ok (I4, [Some (Fin 1); Some (Fin 2)]); Ok (F8, [Some (Fin 0); Some (Fin 1); None; None])].
+Proof. vm_compute. split; reflexivity. Qed.
+
 (* ------------------------------------------------------------------ where apply_masking does not reproduce it (open findings) *)
 Theorem apply_masking_packed_refuted :
-  exists d A raw, apply_masking_model d A true raw <> Ok (read_model d A true true raw).
+  exists d A raw, fill_ok d A = true /\ apply_masking_model d A true raw <> Ok (read_model d A true true raw).
 Proof.
   exists I2, (mkAttrs None None None None None (Some (ANum F4 [Fin 2])) (Some (ANum F4 [Fin 1])) None),
          [Fin 1; Fin (-32767)].
-  vm_compute. discriminate.
-Qed.
-
-Theorem apply_masking_unsafe_attribute_refuted :
-  exists d A raw, not_packed d A false = true /\
-    apply_masking_model d A false raw <> Ok (read_model d A true false raw).
-Proof.
-  exists I2, (mkAttrs None None None (Some (ANum I4 [Fin 70000])) None None None None), [Fin 1; Fin 2].
   vm_compute. split; [reflexivity|discriminate].
 Qed.
 
-Theorem apply_masking_range_and_min_refuted :
-  exists d A raw, not_packed d A false = true /\
-    apply_masking_model d A false raw = Err ValueErr /\
-    exists r, read_model d A true false raw = r.
+Theorem apply_masking_bounds_inherit_refuted :
+  exists db Ab Ap raw, apply_guard db Ab false = true /\
+    apply_masking_bounds db db Ab Ap false raw <> Ok (read_model db Ab true false raw).
 Proof.
-  exists I2, (mkAttrs None None (Some (ANum I2 [Fin 2; Fin 4])) (Some (ANum I2 [Fin 3])) None None None None),
-         [Fin 1; Fin 2; Fin 3].
-  vm_compute. splits; try reflexivity. eexists; reflexivity.
+  exists F8, (mkAttrs None None None None None None None None),
+         (mkAttrs (Some (ANum I4 [Fin 2])) None None None None None None None), [Fin 1; Fin 2].
+  vm_compute. split; [reflexivity|discriminate].
+Qed.
+
+(* the default fill value that the reader records must be that of the variable itself:
+   recording the parent's (an i4 coordinate with f8 bounds) loses the never-written cells *)
+Theorem recorded_fill_of_other_type_refuted :
+  exists rd d A raw, apply_guard d A false = true /\
+    apply_masking_recorded rd d A false raw <> Ok (read_model d A true false raw).
+Proof.
+  exists I4, F8, (mkAttrs None None None None None None None None), [Fin 1; Fin (default_fill F8)].
+  vm_compute. split; [reflexivity|discriminate].
+Qed.
+
+Theorem recorded_fill_same_default : forall rd d A unpack raw,
+  default_fill rd = default_fill d -> is_float rd = is_float d ->
+  apply_masking_recorded rd d A unpack raw = apply_masking_model d A unpack raw.
+Proof.
+  intros rd d A unpack raw E _. unfold apply_masking_model, apply_masking_recorded.
+  destruct (read_model d A false unpack raw) as [dd vals].
+  unfold apply_masking_on, fill_property. rewrite E.
+  destruct (a_fill A); reflexivity.
 Qed.
